@@ -50,6 +50,11 @@ def _get_fcp(filename: "any", filesystem_proxy: "heap:IFileSystemProxy", logger:
     modifies(logger.sources)
     may_raise(ResultAttemptError)
     ensures(result.is_ok() or result.is_err())
+    # C11: when the transformer is started, the logger holds the text that was read under the path the transformer records in the
+    # metadata of every node (so an error that cites a node of this file can be rendered from the right source)
+    ensures_effects(implies(effect_count("call:FcpV2Transformer.__init__") == 1,
+                            dyn_get(logger.sources, str(effect_arg("call:FcpV2Transformer.__init__", 0, 1)))
+                            == to_dyn(effect_result("call:IFileSystemProxy.read", 0))))
 
 
 @contract("fcp.parser:get_fcp_from_string")
